@@ -92,8 +92,7 @@ fn length_error() -> (e: std::io::Error) {
 }
 
 // N8: lookups in the constant table BASE64_DECODE are routed through its specification; that the table is the
-// inverse alphabet is proved by the Kani harness c14_decode_table (complete) for the 64 alphabet characters
-// and '='; for the remaining bytes the table holds 0 (checked by the same harness group, c14_decode_table_zero).
+// value table `dec_val` for all 256 bytes is proved by the Kani harness c14_decode_table_full (complete).
 #[verifier::external_body]
 fn b64_dec_lookup(c: u8) -> (r: u8)
     ensures r == dec_val(c),
